@@ -1,11 +1,13 @@
-//! A `HashMap` whose iteration order is a function of the run (fixed hasher keys) rather
-//! than of `RandomState`, for the one map in Humphrey whose order is observable.
+//! A `HashMap` whose iteration order is a function of the run rather than of `RandomState`, for
+//! the one map in Humphrey whose order is observable: the hasher key is drawn from the run's
+//! entropy stream when the map is created inside a simulation (so different runs iterate in
+//! different orders, as different processes do with `RandomState`) and is fixed outside one.
 
 use std::hash::{BuildHasher, Hasher};
 use std::ops::{Deref, DerefMut};
 
 #[derive(Clone, Default)]
-pub struct FixedState;
+pub struct FixedState(u64);
 
 pub struct Fnv(u64);
 
@@ -28,7 +30,7 @@ impl Hasher for Fnv {
 impl BuildHasher for FixedState {
     type Hasher = Fnv;
     fn build_hasher(&self) -> Fnv {
-        Fnv(0xcbf2_9ce4_8422_2325)
+        Fnv(0xcbf2_9ce4_8422_2325 ^ self.0)
     }
 }
 
@@ -36,7 +38,7 @@ pub struct HashMap<K, V>(std::collections::HashMap<K, V, FixedState>);
 
 impl<K, V> HashMap<K, V> {
     pub fn new() -> Self {
-        HashMap(std::collections::HashMap::with_hasher(FixedState))
+        HashMap(std::collections::HashMap::with_hasher(FixedState(crate::sim::entropy_u64().unwrap_or(0))))
     }
 }
 
